@@ -254,6 +254,50 @@ def number_token_language(project, chk, rule="N8"):
     return len(pats)
 
 
+def hsla_string_fields(project, chk, rule="N9"):
+    """hsla() strings: what reaches the HSL core as S and L is the written percentage divided by 100 (or 0 for an empty field), never the bare number."""
+    fi = project.funcs.get(f"{CONV}.hsla_to_rgb")
+    if fi is None:
+        return 0
+    org = Origins(project, fi)
+    sc = Scope(project, fi)
+
+    def from_text(o) -> bool:
+        if isinstance(o, frozenset):
+            return any(from_text(x) for x in o)
+        if not isinstance(o, tuple) or not o:
+            return False
+        if o[0] == "call" and isinstance(o[1], str) and (o[1].startswith(".") or o[1].startswith("re.")):
+            return True
+        if o[0] == "comp":
+            return True
+        return any(from_text(x) for x in o if isinstance(x, (tuple, frozenset)))
+
+    def alts(o):
+        if o[0] == "phi":
+            return [a for x in o[1] for a in alts(x)]
+        if o[0] == "ifexp":
+            return alts(o[2]) + alts(o[3])
+        return [o]
+    n = 0
+    for c in own_nodes(fi.node):
+        if not (isinstance(c, ast.Call) and (sc.resolve_call(c) or "").endswith(".hsl_to_rgb") and c.args):
+            continue
+        o = org.at(c.args[0])
+        if o[0] != "tuple" or len(o[1]) != 3:
+            chk.not_decided.append(f"{rule}: the colour handed to hsl_to_rgb is not a 3-element display")
+            continue
+        for k, name in ((1, "saturation"), (2, "lightness")):
+            for a in alts(o[1][k]):
+                if not from_text(a):
+                    continue
+                n += 1
+                ok = a[0] == "binop" and a[1] == "Div" and a[3] in (("const", 100), ("const", 100.0)) and a[2][0] == "call" and a[2][1] == "builtins.float"
+                chk.check(ok, rule, fi.short, f"{name} from an hsla() string", project.loc(fi.module, c), f"the {name} of an hsla() string is its percentage / 100",
+                          how=f"origin: {oshow(a)[:90]}", message=f"the {name} of an hsla() string can reach the HSL core as {oshow(a)[:100]} (not percentage / 100): `1%` is read as 100%")
+    return n
+
+
 def run(project, chk):
     chk.rule("N1", "CSS_NAMED_COLORS has exactly the 148 keywords of CSS Color 3 + rebeccapurple, lower-case, each with the value CSS defines")
     chk.rule("N2", "every string dispatch test in parse_color_to_rgb / detect_color_format is applied to color.strip().lower()")
@@ -551,6 +595,8 @@ def run(project, chk):
     hsl_core_is_css(project, chk, "N5")
     chk.rule("N8", "the numeric-token pattern of the rgb()/rgba() parser accepts every ASCII number spelling of CSS that the pinned one does (language inclusion, decided on the pattern)")
     number_token_language(project, chk, "N8")
+    chk.rule("N9", "hsla() strings: S and L reach the HSL core as percentage / 100 (value-flow origins of the tuple handed to hsl_to_rgb)")
+    chk.floor("string-derived S/L alternatives in hsla_to_rgb", hsla_string_fields(project, chk, "N9"), 2)
     # every way a hue enters hsl_to_rgb / hsla_to_rgb is wrapped
     for q in (f"{CONV}.hsl_to_rgb", f"{CONV}.hsla_to_rgb"):
         fi = project.func(q)
